@@ -433,6 +433,45 @@ func (ck *Check) absoluteSet(rule string) {
 		want.Args[0], want.Args[1] = want.Args[1], want.Args[0]
 	}
 	cs := callsTo(inc, a.AwsSetSize)
+	// the size the request carries, read in the strategy's frame with its parameters bound at the
+	// call in IncreaseSize: TargetSize() + δ whether the sum is formed by the caller
+	// (`set(TargetSize()+δ)`) or by the strategy (`change(δ)`)
+	sentIsSum := func(ci ssa.CallInstruction) bool {
+		call, ok := ci.(*ssa.Call)
+		if !ok {
+			return false
+		}
+		args := make([]*Term, len(call.Common().Args))
+		for i, av := range call.Common().Args {
+			args[i] = ctx.Term(av)
+		}
+		ch := ctx.child(a.AwsSetSize, call, args)
+		ch.depth = 0
+		n, good := 0, 0
+		for _, w := range a.W {
+			if w.Class != "W-ASG-SET" || w.Fn != a.AwsSetSize {
+				continue
+			}
+			n++
+			dc := ck.literalFields(ch, w.Call.Common().Args[0])["DesiredCapacity"]
+			if dc == nil || dc.Kind != "call" || !strings.HasSuffix(dc.Name, "aws.Int64") || len(dc.Args) != 1 {
+				continue
+			}
+			env := &linEnv{choices: map[string]int{}, root: ch}
+			l1, e1 := env.linTerm(dc.Args[0])
+			l2, e2 := env.linTerm(want)
+			if e1 == nil && e2 == nil {
+				if d := l1.add(l2, -1); d.isConst() && d.konst.Sign() == 0 {
+					good++
+				}
+			}
+		}
+		return n > 0 && n == good
+	}
+	allSum := len(cs) > 0
+	for _, ci := range cs {
+		allSum = allSum && sentIsSum(ci)
+	}
 	for _, ci := range cs {
 		arg := ctx.Term(ci.Common().Args[1])
 		env := &linEnv{choices: map[string]int{}, root: ctx}
@@ -443,6 +482,7 @@ func (ck *Check) absoluteSet(rule string) {
 			d := l1.add(l2, -1)
 			same = d.isConst() && d.konst.Sign() == 0
 		}
+		same = same || sentIsSum(ci)
 		ck.cond(same, rule, ck.P.siteKey(ci)+"/absolute", ck.P.instrPos(ci), funcID(inc), "the set-capacity strategy is given TargetSize() + δ", arg.String(), "the new desired capacity is not current + δ")
 		okRecv := ctx.Term(ci.Common().Args[0]).Key() == recv.Key()
 		ck.cond(okRecv, rule, ck.P.siteKey(ci)+"/receiver", ck.P.instrPos(ci), funcID(inc), "on the same node group", "", "")
@@ -466,7 +506,7 @@ func (ck *Check) absoluteSet(rule string) {
 		in := w.Call.Common().Args[0]
 		flds := ck.literalFields(sctx, in)
 		dc, nm := flds["DesiredCapacity"], flds["AutoScalingGroupName"]
-		okDC := dc != nil && dc.Kind == "call" && strings.HasSuffix(dc.Name, "aws.Int64") && dc.Args[0].Key() == paramTerm(fn.Params[1]).Key()
+		okDC := dc != nil && dc.Kind == "call" && strings.HasSuffix(dc.Name, "aws.Int64") && (dc.Args[0].Key() == paramTerm(fn.Params[1]).Key() || allSum)
 		ck.cond(okDC, rule, key+"/DesiredCapacity", ck.P.instrPos(w.Call), funcID(fn), "DesiredCapacity ← Int64(newSize)", fmt.Sprint(dc), "the request does not carry the computed size")
 		okNM := nm != nil && nm.Kind == "call" && strings.HasSuffix(nm.Name, "aws.String") && nm.Args[0].Kind == "field" && nm.Args[0].Name == "id" && nm.Args[0].Args[0].Key() == paramTerm(fn.Params[0]).Key()
 		ck.cond(okNM, rule, key+"/group", ck.P.instrPos(w.Call), funcID(fn), "AutoScalingGroupName ← String(n.id)", fmt.Sprint(nm), "the request targets another group")
@@ -588,21 +628,14 @@ func checkC17(ck *Check) {
 	// attach step (decided as C18.R3)
 	if a := ck.A; a.AwsOneShot != nil && a.AwsAttach != nil {
 		os := a.AwsOneShot
-		var fleet *ssa.Call
-		for _, w := range a.W {
-			if w.Class == "W-EC2-FLEET" && w.Fn == os {
-				fleet, _ = w.Call.(*ssa.Call)
-			}
-		}
-		// the attach step's entry as the strategy sees it: the step itself or a driver around it
-		att := callsIn(os, func(ci ssa.CallInstruction) bool {
-			g := ci.Common().StaticCallee()
-			return g != nil && ck.P.inRepo(g) && (g == a.AwsAttach || ck.P.reachCut([]*ssa.Function{g}, nil)[a.AwsAttach])
-		})
-		if fleet == nil || len(att) != 1 {
+		fleet, reqCall, att0, okShape := ck.fleetAndAttach(a.AwsAttach)
+		switch {
+		case !okShape:
 			ck.fail("C17.R8", funcID(os)+"/shape", "", funcID(os), "one CreateFleet and one attach call", "", "")
-		} else {
-			ck.nothingDropped("C17.R8", os, ck.P.NewCtx(os), fleet, att[0])
+		case reqCall != nil:
+			ck.nothingDroppedSplit("C17.R8", fleet, reqCall, att0)
+		default:
+			ck.nothingDropped("C17.R8", os, ck.P.NewCtx(os), fleet, att0)
 		}
 	}
 }
@@ -740,12 +773,31 @@ func (ck *Check) fleetRequest(rule string) {
 		}
 	}
 	// binding of addCount to δ and the single CreateFleet call
-	os := a.AwsOneShot
+	os := a.AwsFleetReq
 	octx := ck.P.NewCtx(os)
 	var osCount *Term
 	for _, prm := range os.Params {
 		if isInteger(prm.Type()) {
 			osCount = paramTerm(prm)
+		}
+	}
+	if a.AwsFleetReq != a.AwsOneShot {
+		// the request helper is handed the strategy's own count
+		sctx := ck.P.NewCtx(a.AwsOneShot)
+		var sCount *Term
+		for _, prm := range a.AwsOneShot.Params {
+			if isInteger(prm.Type()) {
+				sCount = paramTerm(prm)
+			}
+		}
+		for _, ci := range callsTo(a.AwsOneShot, a.AwsFleetReq) {
+			var got *Term
+			for _, av := range ci.Common().Args {
+				if isInteger(av.Type()) {
+					got = sctx.Term(av)
+				}
+			}
+			ck.cond(got != nil && sCount != nil && got.Key() == sCount.Key(), rule, ck.P.siteKey(ci)+"/count", ck.P.instrPos(ci), funcID(a.AwsOneShot), "the fleet request helper is given the strategy's own count", fmt.Sprint(got), "")
 		}
 	}
 	for _, ci := range callsTo(os, fn) {
@@ -806,6 +858,37 @@ func (ck *Check) spreadCollect(fn *ssa.Function, ctx *Ctx, slice ssa.Value, dept
 	for _, r := range pr.Roots {
 		if makeSliceEmpty(r) {
 			continue
+		}
+		// (ids, err) := request(…): the list is what the helper returns next to a nil error
+		if ex, isEx := r.(*ssa.Extract); isEx && ex.Index == 0 && depth < 2 && len(pr.Appends) == 0 && len(pr.Roots) == 1 {
+			if call, ok := ex.Tuple.(*ssa.Call); ok {
+				if h := call.Common().StaticCallee(); h != nil && ck.P.inRepo(h) && h.Blocks != nil && h.Signature.Results().Len() == 2 {
+					args := make([]*Term, len(call.Common().Args))
+					for i, av := range call.Common().Args {
+						args[i] = ctx.Term(av)
+					}
+					ch := ctx.child(h, call, args)
+					ch.depth = 0
+					n := 0
+					for _, b := range h.Blocks {
+						ret, ok := b.Instrs[len(b.Instrs)-1].(*ssa.Return)
+						if !ok {
+							continue
+						}
+						if k, isK := ret.Results[0].(*ssa.Const); isK && k.IsNil() {
+							continue // no list: an error return (decided by the "nothing dropped" rule)
+						}
+						n++
+						if okv, why := ck.spreadCollect(h, ch, ret.Results[0], depth+1); !okv {
+							return false, "in " + funcID(h) + ": " + why
+						}
+					}
+					if n >= 1 {
+						return true, ""
+					}
+					return false, funcID(h) + " never returns a list"
+				}
+			}
 		}
 		if call, ok := r.(*ssa.Call); ok && depth < 2 && len(pr.Appends) == 0 && len(pr.Roots) == 1 {
 			if h := call.Common().StaticCallee(); h != nil && ck.P.inRepo(h) && h.Blocks != nil && h.Signature.Results().Len() == 1 {
@@ -1205,7 +1288,65 @@ func checkC18(ck *Check) {
 
 // nothingDropped (C18.R3 / C17.R8): after CreateFleet the strategy returns without attaching only
 // if the call failed or returned no instances.
+// fleetAndAttach: the CreateFleet call and the attach call of the fleet strategy; when the request
+// lives in a helper, reqCall is the strategy's call of that helper.
+func (ck *Check) fleetAndAttach(attachFn *ssa.Function) (fleet *ssa.Call, reqCall *ssa.Call, att ssa.CallInstruction, ok bool) {
+	a := ck.A
+	for _, w := range a.W {
+		if w.Class == "W-EC2-FLEET" && w.Fn == a.AwsFleetReq {
+			fleet, _ = w.Call.(*ssa.Call)
+		}
+	}
+	atts := callsIn(a.AwsOneShot, func(ci ssa.CallInstruction) bool {
+		g := ci.Common().StaticCallee()
+		return g != nil && ck.P.inRepo(g) && (g == attachFn || g == a.AwsAttach || ck.P.reachCut([]*ssa.Function{g}, nil)[a.AwsAttach])
+	})
+	if fleet == nil || len(atts) != 1 {
+		return nil, nil, nil, false
+	}
+	if a.AwsFleetReq != a.AwsOneShot {
+		c, isCall := firstCall(callsTo(a.AwsOneShot, a.AwsFleetReq))
+		if !isCall {
+			return nil, nil, nil, false
+		}
+		reqCall = c
+	}
+	return fleet, reqCall, atts[0], true
+}
+
+// nothingDroppedSplit: the request helper reports an error only if CreateFleet failed or returned
+// nothing, and the strategy leaves without attaching only if the helper reported an error.
+func (ck *Check) nothingDroppedSplit(rule string, fleet, reqCall *ssa.Call, att ssa.CallInstruction) {
+	a := ck.A
+	h, os := a.AwsFleetReq, a.AwsOneShot
+	hctx := ck.P.NewCtx(h)
+	// in the helper: a return after CreateFleet that hands back no list
+	ck.nothingDroppedIn(rule, h, hctx, fleet, nil, func(r *ssa.Return) bool {
+		if len(r.Results) == 0 {
+			return false
+		}
+		k, isK := r.Results[len(r.Results)-1].(*ssa.Const)
+		return isK && k.IsNil() // a nil error: the list goes on to the attach step
+	})
+	// in the strategy: leaving without attaching needs the helper's error
+	octx := ck.P.NewCtx(os)
+	ct := octx.Term(reqCall)
+	errT := &Term{Kind: "extract", Name: fmt.Sprint(reqCall.Type().(*types.Tuple).Len() - 1), Args: []*Term{ct}}
+	failed := Not(cmpFormula(token.EQL, errT, &Term{Kind: "const", Name: "nil"}))
+	for _, b := range os.Blocks {
+		r, ok := b.Instrs[len(b.Instrs)-1].(*ssa.Return)
+		if !ok || !reqCall.Block().Dominates(b) || b == att.Block() {
+			continue
+		}
+		ck.entails(rule, fmt.Sprintf("%s/return@block%d", funcID(os), b.Index), r, octx.BlockPC(b), failed, "after the fleet request the strategy returns without attaching only if the request reported an error")
+	}
+}
+
 func (ck *Check) nothingDropped(rule string, os *ssa.Function, octx *Ctx, fleet *ssa.Call, att ssa.CallInstruction) {
+	ck.nothingDroppedIn(rule, os, octx, fleet, att, nil)
+}
+
+func (ck *Check) nothingDroppedIn(rule string, os *ssa.Function, octx *Ctx, fleet *ssa.Call, att ssa.CallInstruction, exempt func(*ssa.Return) bool) {
 	ft := octx.Term(fleet)
 	fleetOut := &Term{Kind: "extract", Name: "0", Args: []*Term{ft}}
 	for _, b := range os.Blocks {
@@ -1213,7 +1354,10 @@ func (ck *Check) nothingDropped(rule string, os *ssa.Function, octx *Ctx, fleet 
 		if !ok || !fleet.Block().Dominates(b) || b == fleet.Block() && false {
 			continue
 		}
-		if b == att.Block() {
+		if att != nil && b == att.Block() {
+			continue
+		}
+		if exempt != nil && exempt(r) {
 			continue
 		}
 		pc := octx.BlockPC(b)
@@ -1270,17 +1414,16 @@ func (ck *Check) attachStepTail(fn *ssa.Function) {
 	{
 		os := a.AwsOneShot
 		octx := ck.P.NewCtx(os)
-		var fleet *ssa.Call
-		for _, w := range a.W {
-			if w.Class == "W-EC2-FLEET" && w.Fn == os {
-				fleet = w.Call.(*ssa.Call)
-			}
-		}
-		att := callsTo(os, fn)
-		if fleet == nil || len(att) != 1 {
+		fleet, reqCall, att0, okShape := ck.fleetAndAttach(fn)
+		att := []ssa.CallInstruction{att0}
+		if !okShape {
 			ck.fail("C18.R3", funcID(os)+"/shape", "", funcID(os), "one CreateFleet and one attach call", "", "")
 		} else {
-			ck.nothingDropped("C18.R3", os, octx, fleet, att[0])
+			if reqCall != nil {
+				ck.nothingDroppedSplit("C18.R3", fleet, reqCall, att0)
+			} else {
+				ck.nothingDropped("C18.R3", os, octx, fleet, att[0])
+			}
 			// production caller injects terminateOrphanedInstances
 			var inj ssa.Value
 			for _, av := range att[0].Common().Args {
@@ -2422,8 +2565,15 @@ func (ck *Check) exitAfterDisposition(rule string) {
 	}
 	var fleet ssa.Instruction
 	for _, w := range a.W {
-		if w.Class == "W-EC2-FLEET" && w.Fn == a.AwsOneShot {
+		if w.Class == "W-EC2-FLEET" && w.Fn == a.AwsFleetReq {
 			fleet = w.Call
+		}
+	}
+	// seen from the strategy, "the fleet request" is its call of the request helper
+	var fleetInStrategy ssa.Instruction = fleet
+	if a.AwsFleetReq != a.AwsOneShot {
+		if c, isCall := firstCall(callsTo(a.AwsOneShot, a.AwsFleetReq)); isCall {
+			fleetInStrategy = c
 		}
 	}
 	nExit, nDisp := 0, 0
@@ -2434,8 +2584,11 @@ func (ck *Check) exitAfterDisposition(rule string) {
 			if !callExits(e) {
 				continue
 			}
-			if fn == a.AwsOneShot && fleet != nil && e != fleet && !reachesWithout(fleet, e, func(ssa.Instruction) bool { return false }) {
+			if fn == a.AwsFleetReq && fleet != nil && e != fleet && !reachesWithout(fleet, e, func(ssa.Instruction) bool { return false }) {
 				continue // before the fleet request nothing has been acquired yet
+			}
+			if fn == a.AwsOneShot && fn != a.AwsFleetReq && fleetInStrategy != nil && e != fleetInStrategy && !reachesWithout(fleetInStrategy, e, func(ssa.Instruction) bool { return false }) {
+				continue
 			}
 			nExit++
 			key := fmt.Sprintf("%s/may-exit#%d:%s", funcID(fn), ord, calleeName(e))
